@@ -330,6 +330,19 @@ func TestVerifC13(t *testing.T) {
 								f2 += j + 1
 							}
 						}
+						// … and so does another occurrence of the same value that overlaps this one (a periodic
+						// value such as "the the the" behind a text that ends in "the"): the literal search
+						// reports successive non-overlapping occurrences from the left
+						for f2 := 0; f2 <= len(normU) && !overlapped; {
+							j := strings.Index(normU[f2:], normV)
+							if j < 0 {
+								break
+							}
+							if f2+j != off && f2+j < off+len(normV) && off < f2+j+len(normV) {
+								overlapped = true
+							}
+							f2 += j + 1
+						}
 						if overlapped {
 							from = off + 1
 							continue
